@@ -85,6 +85,10 @@ def op_strategy(draw, style):
                   mode=draw(st.sampled_from(["error", "error", "error", "replace", "merge", "merge", "replace", "bogus"])),
                   report=draw(st.sampled_from(["silence", "warning", "silence", "warning", "bogus"])),
                   form=draw(st.sampled_from(["obj", "tuple", "list"])))
+        op.update(near=draw(st.one_of(st.none(), st.none(), st.none(), st.integers(0, 7))), near_k=draw(st.integers(0, 5)))
+    elif kind == "new":
+        op.update(minT=draw(st.one_of(st.none(), st.none(), lat)), maxT=draw(st.one_of(st.none(), lat, lat)),
+                  name=draw(st.sampled_from([None, "renamed"])))
     elif kind == "delete_entry":
         op.update(sel=draw(st.integers(0, 7)), absent=draw(st.integers(0, 5)) == 0)
     elif kind == "dejitter":
@@ -165,7 +169,14 @@ def apply_op(tiers: list, op: dict) -> StepResult:
             ent = (a, b, op["label"])
             obj = p.Interval(*ent)
         else:
-            ent = (op["a"], op["label"])
+            t_new = op["a"]
+            ents0 = list(T.entries)
+            if op.get("near") is not None and ents0:
+                # a time that differs from an existing point's by less than the library's fuzzy equality
+                base = ents0[op["near"] % len(ents0)].time
+                cands = gen.near_values(base)
+                t_new = cands[op.get("near_k", 0) % len(cands)]
+            ent = (t_new, op["label"])
             obj = p.Point(*ent)
         arg = obj if op["form"] == "obj" else (tuple(ent) if op["form"] == "tuple" else list(ent))
         call(lambda: T.insertEntry(arg, op["mode"], op["report"]))
@@ -204,7 +215,14 @@ def apply_op(tiers: list, op: dict) -> StepResult:
             flt = None if op["filter"] is None else (lambda lab, f=op["filter"]: lab == f)
             r.result = call(lambda: T.morph(U, flt))
     elif kind == "new":
-        r.result = call(lambda: T.new())
+        kw = {}
+        if op.get("minT") is not None:
+            kw["minTimestamp"] = op["minT"]
+        if op.get("maxT") is not None:
+            kw["maxTimestamp"] = op["maxT"]
+        if op.get("name") is not None:
+            kw["name"] = op["name"]
+        r.result = call(lambda: T.new(**kw))
     else:
         raise AssertionError(kind)
     if r.result is not None:
